@@ -208,6 +208,49 @@ def rule_vm_walker_offsets(ck, facts):
             else:
                 ck.bad(R, key, "%s (arm %s): element words are not addressed by a running word offset (accumulator=%s, word_size=%s, enumerate=%s): after a multi-word element the walker reads the wrong word, takes a float for a handle and skips the boxed child — it is never released (one heap object leaks per evaluation) or a live one is released" % (nm, v, acc, has_ws, uses_enum), f.where())
     ck.floor(R, "vm_walker_aggregate_arms", len(verdicts), 2)
+    # ---- the bounds test in front of each element slice: `offset + size <= len` in both walkers.  `<` skips an
+    # element that ends exactly at the end of the value (the last field of the widest variant): the clone walker then
+    # retains one reference fewer than the release walker gives back, and a live box is freed.
+    from ..rules.guards import FLIP, Terms
+    rels = {}
+    for nm in ("clone_usersum_recursive", "release_usersum_recursive"):
+        c = [f for f in lang.fns if f.short.endswith("::" + nm) and f.kind in ("assoc", "fn")]
+        if len(c) != 1:
+            continue
+        f = c[0]
+        cov = cover.coverage(facts, f, roles.TYPE)
+        if not cov:
+            continue
+        T = Terms(f)
+        for v in ("Tuple", "Record"):
+            if v not in cov.primary_handled() or cov.arm_target(v) is None:
+                continue
+            region = reachable(f, cov.arm_target(v), stop=[cov.primary.block])
+            found = set()
+            for b in region:
+                t = f.term(b)
+                if t[KIND] != "switch" or t[4][0] not in ("cp", "mv"):
+                    continue
+                cnd = T.op(t[4])
+                if cnd[0] != "bin" or cnd[1] not in FLIP:
+                    continue
+                x, y, op = cnd[2], cnd[3], cnd[1]
+                if y[0] == "len":
+                    pass
+                elif x[0] == "len":
+                    op = FLIP[op]
+                else:
+                    continue
+                found.add(op)
+            if found:
+                rels[(nm, v)] = found
+    for (nm, v), found in sorted(rels.items()):
+        key = "slice-bound|%s|%s" % (nm, v)
+        if found == {"le"}:
+            ck.ok(R, key, {"walker": nm, "arm": v, "test": "end <= len"})
+        else:
+            ck.bad(R, key, "%s (arm %s) tests the end of an element slice against the length of the value with %s where `end <= len` is the exact condition: with `<` the element that ends at the end of the value (the last field of the widest variant) is skipped — cloning a `Node(Tree, float, Tree)` no longer retains the right subtree, releasing the copy frees it, and the next use panics `invalid heap index`" % (nm, v, sorted(found)), lang.by_path.get(next(f.path for f in lang.fns if f.short.endswith("::" + nm))).where())
+    ck.floor(R, "walker_slice_bounds", len(rels), 2)
 
 
 def _emitted_instr(f, cov, v):
